@@ -70,6 +70,9 @@ func ZzC10AuthError() {
 			}
 		}
 	}
+	// the challenge does not invalidate earlier challenges on this connection: the
+	// nonce stays the one already issued, and it is the one in the new challenge
+	zzAssert(sc.authNonce == "abcd", "a challenge keeps the connection's nonce (credentials computed for an earlier challenge stay valid)")
 	if provided {
 		_, isAuth := err.(liberrors.ErrServerAuth)
 		zzAssert(isAuth, "wrong credentials end the connection")
@@ -78,4 +81,21 @@ func ZzC10AuthError() {
 	}
 	zzCover("credentials provided", provided)
 	zzCover("no credentials", !provided)
+}
+
+// C10 (nonce issued before it is checked): VerifyCredentials on a connection
+// that has not challenged anybody yet first creates the nonce; an authorization
+// computed for the empty nonce is therefore never accepted, and afterwards the
+// connection has a non-empty nonce.
+func ZzC10NonceIssued() {
+	s := &Server{AuthMethods: []auth.VerifyMethod{auth.VerifyMethodDigestMD5}}
+	sc := &ServerConn{s: s, remoteAddr: &net.TCPAddr{IP: net.IP{127, 0, 0, 1}}}
+	req := &base.Request{Method: base.Describe, URL: &base.URL{Scheme: "rtsp", Host: "h", Path: "/p"}, Header: base.Header{}}
+	se := &auth.Sender{WWWAuth: auth.GenerateWWWAuthenticate(s.AuthMethods, serverAuthRealm, ""), User: "u", Pass: "p"}
+	zzAssert(se.Initialize() == nil, "sender initialises on a challenge with an empty nonce")
+	se.AddAuthorization(req)
+	ok := sc.VerifyCredentials(req, "u", "p")
+	zzAssert(sc.authNonce != "", "the connection has a nonce after the first verification")
+	zzAssert(!ok, "credentials computed for a nonce the server never issued are not accepted")
+	zzCover("done", true)
 }
